@@ -167,8 +167,8 @@ void reactivate_current_locals () {
   int i;
   for (i = 0; i < current_number_of_locals; i++)
     {
+      /* sem_value still counts this binding: deactivate_current_locals() only hid it */
       locals_ptr[i]->dn.local_num = runtime_locals_ptr[i];
-      locals_ptr[i]->sem_value++;
     }
 }
 
@@ -210,8 +210,9 @@ int add_local_name (char *str, int type) {
       ihe = find_or_add_ident (str, FOA_NEEDS_MALLOC);
       type_of_locals_ptr[max_num_locals] = (lpc_type_t)type;
       locals_ptr[current_number_of_locals++] = ihe;
-      if (ihe->dn.local_num == -1)
-        ihe->sem_value++;
+      /* one count per entry of locals[]: each entry is released (sem_value--) separately, also when the
+         same name was (illegally) declared twice */
+      ihe->sem_value++;
       return (ihe->dn.local_num = (short)max_num_locals++);
     }
 }
